@@ -67,6 +67,38 @@ def run(prog, tier):
             info.append(f"C06 sweep: BasePrior subclass {ci.name} has no reference law in the rule table; not checked")
             continue
         law, pmap = CLASS_LAW[ci.name]
+        # the index list is stored in the order given: parameter k of the prior belongs to index k of the list, so anything that
+        # re-orders or thins it (sorted, unique, set, reversed) pairs parameters with other variables
+        init_ = ci.methods.get("__init__")
+        if init_ is not None:
+            reorder = []
+            fns_ = [init_]
+            vc_, vfn_ = prog.find_method(ci, "validate_variable_indices")
+            if vfn_ is not None:
+                fns_.append(vfn_)
+            for fn_ in fns_:
+                idx_names = {"variables"} if fn_ is init_ else set()
+                for st_ in ast.walk(fn_):
+                    if isinstance(st_, ast.Assign) and len(st_.targets) == 1:
+                        t_ = st_.targets[0]
+                        is_idx = (isinstance(t_, ast.Attribute) and t_.attr == "variables") or \
+                                 (fn_ is vfn_ and isinstance(t_, ast.Name) and t_.id == fn_.args.args[1].arg)
+                        if is_idx:
+                            for x in ast.walk(st_.value):
+                                if isinstance(x, ast.Call) and U(x.func).split(".")[-1] in ("sorted", "sort", "unique", "set", "frozenset", "reversed", "argsort", "shuffle", "permutation"):
+                                    reorder.append((st_.lineno, U(st_)[:80]))
+                    if isinstance(st_, ast.Expr) and isinstance(st_.value, ast.Call) and isinstance(st_.value.func, ast.Attribute) \
+                            and st_.value.func.attr in ("sort", "reverse") and (U(st_.value.func.value) == "self.variables" or
+                                                                               (fn_ is vfn_ and U(st_.value.func.value) == fn_.args.args[1].arg)):
+                        reorder.append((st_.lineno, U(st_)[:80]))
+                if fn_ is vfn_:
+                    for r_ in ast.walk(fn_):
+                        if isinstance(r_, ast.Return) and r_.value is not None and any(
+                                isinstance(x, ast.Call) and U(x.func).split(".")[-1] in ("sorted", "unique", "set", "reversed") for x in ast.walk(r_.value)):
+                            reorder.append((r_.lineno, U(r_)[:80]))
+            obs.append(struct_ob("routing", qual(ci, init_) + "[index-order]", not reorder,
+                                 "the variable indices must be kept in the order given (parameter k of the prior goes with index k): "
+                                 + "; ".join(f"line {l}: `{t}`" for l, t in reorder[:2]), REL, reorder[0][0] if reorder else init_.lineno, tier="F"))
         dens_text, support = LAWS[law]
         n_atom = None
         # the size atom: self.n_params expands to size(<first parameter attribute>)
